@@ -238,6 +238,8 @@ def main(argv=None):
   targets += [t for t in frame_targets if t not in targets]
   if args.only:
     targets = [t for t in targets if args.only in t]
+  # lemmas: those declared for the property plus every lemma instantiated by one of its contracts (found after VC
+  # generation through the `lemma:<name>` theory tag; proved in the same run)
   lemma_names = [n for n, l in C.LEMMAS.items() if prop in l.props]
   bidx = [i for i, b in enumerate(registry.BOUNDED)
           if b["prop"] == prop and (b["tier"] == "quick" or tier == "thorough")]
@@ -261,7 +263,16 @@ def main(argv=None):
     g_async = [pool.apply_async(_ground_worker, ((i,),)) for i in gidx]
     t_gen0 = time.time()
     gens = pool.map(_gen_worker, [(t, prop) for t in targets], chunksize=1)
-    gens += pool.map(_lemma_worker, [(n, prop) for n in lemma_names], chunksize=1)
+    used = sorted({t.split(":", 1)[1] for g in gens for t in g.get("theories", []) if t.startswith("lemma:")})
+    done_l = set()
+    while True:      # lemmas may use lemmas
+      todo = [n for n in sorted(set(lemma_names) | set(used)) if n not in done_l]
+      if not todo:
+        break
+      lg = pool.map(_lemma_worker, [(n, prop) for n in todo], chunksize=1)
+      gens += lg
+      done_l.update(todo)
+      used = sorted(set(used) | {t.split(":", 1)[1] for g in lg for t in g.get("theories", []) if t.startswith("lemma:")})
     if not args.only:
       gens += pool.map(_frame_module_worker, [(rel, prop) for rel in FRAME_MODULES.get(prop, [])], chunksize=1)
     all_obs = [o for g in gens for o in g["obligations"]]
